@@ -74,3 +74,19 @@ V('C13', 'overlay-merge-through-set', 'edb/pgsql/compiler/dml.py', 'edb.pgsql.co
   '''            n_els = (
                 type_overlay.get(k, ()) + tuple(e for e in v if e not in els)
             )''', '''            n_els = type_overlay.get(k, ()) + tuple(set(v) - els)''', 'C13.R2', 'merge_overlays_globally:iter=set(v) - els')
+V('C13', 'setop-cleanup-unmapped-key', 'edb/pgsql/compiler/pathctx.py', 'edb.pgsql.compiler.pathctx._get_path_var_in_setop',
+  '''            new_path_id = map_path_id(path_id, subrel.view_path_id_map)
+            del subrel.path_outputs[new_path_id, aspect]''', '''            subrel.path_outputs.pop((path_id, aspect), None)''', 'C13.R8', '_get_path_var_in_setop:arm-key')
+V('C13', 'unused-params-skip-components', 'edb/pgsql/compiler/clauses.py', 'edb.pgsql.compiler.clauses.fini_toplevel',
+  'if pgparam.index in used or param.sub_params:', 'if pgparam.index in used or param.is_sub_param:', 'C13.R8', 'fini_toplevel:unused-params-skip')
+V('C13', 'packed-rvar-map-shared-default', 'edb/pgsql/ast.py', None,
+  '''    path_packed_rvar_map: typing.Optional[typing.Dict[
+        typing.Tuple[irast.PathId, PathAspect],
+        PathRangeVar,
+    ]] = None
+''', '''    path_packed_rvar_map: typing.Dict[
+        typing.Tuple[irast.PathId, PathAspect], PathRangeVar
+    ] = {}
+''', 'C13.R8', 'tree-nodes:no-shared-mutable-default')
+V('C13', 'neg-copy-option-default-never-mutated', 'edb/pgsql/ast.py', None,
+  '    encoding: typing.Optional[str] = None\n', '    encoding: typing.Optional[str] = None\n    extra_names: typing.List[str] = []\n', None)
